@@ -81,15 +81,21 @@ structure Thread where
   info : Rec := []            -- callInfo
   h : Hdr := Hdr.nil          -- header read by rdHdr
   h' : Hdr := Hdr.nil         -- header computed by wrCell
-  snaps : List (Str × Hdr) := []   -- headers handed to this goroutine (including the one in flight)
+  /-- slices handed to this goroutine's user code (including the one in flight): method, header,
+      and – ghost – the records it denoted and the reset epoch of the method when it was taken -/
+  snaps : List (Str × Hdr × List Rec × Nat) := []
 
 structure G where
   hdr : Str → Hdr
   arrays : Str → List (List Rec)
   thr : Tid → Thread
   log : Str → List Rec        -- ghost: records committed since the last reset of each method
+  epoch : Str → Nat           -- ghost: number of resets of each method so far
 
-def G.init : G := { hdr := fun _ => Hdr.nil, arrays := fun _ => [[]], thr := fun _ => {}, log := fun _ => [] }
+def G.init : G := { hdr := fun _ => Hdr.nil, arrays := fun _ => [[]], thr := fun _ => {}, log := fun _ => [], epoch := fun _ => 0 }
+
+/-- the records a slice header denotes in the current memory -/
+def G.contents (g : G) (m : Str) (h : Hdr) : List Rec := ((g.arrays m).getD h.arr []).take h.len
 
 def setThr (g : G) (t : Tid) (th : Thread) : G := { g with thr := fun x => if x = t then th else g.thr x }
 
@@ -100,6 +106,11 @@ def cellStep (grow : Nat → Nat) (as : List (List Rec)) (h : Hdr) (r : Rec) : L
     let ncap := max (grow h.cap) (h.len + 1)
     (as ++ [((as.getD h.arr []).take h.len ++ [r]) ++ List.replicate (ncap - (h.len + 1)) []],
      ⟨as.length, h.len + 1, ncap⟩)
+
+/-- the accessor's read: remember the header (and, ghost, what it denotes and the epoch) -/
+def takeSnap (g : G) (th : Thread) (rest : List MI) (m : Str) : Thread :=
+  { th with code := rest, h := g.hdr m,
+            snaps := (m, g.hdr m, g.contents m (g.hdr m), g.epoch m) :: th.snaps }
 
 def lockFree (g : G) (m : Str) : Prop := ∀ t md, (m, md) ∉ (g.thr t).held
 def noWriter (g : G) (m : Str) : Prop := ∀ t, (m, Mode.w) ∉ (g.thr t).held
@@ -143,14 +154,14 @@ inductive Step (grow : Nat → Nat) (bodies : List (List MI)) : G → G → Prop
           { g.thr t with code := rest })
   | rdSnap (g : G) (t : Tid) (m : Str) (rest : List MI) :
       (g.thr t).code = .rdSnap m :: rest →
-      Step grow bodies g (setThr g t { g.thr t with code := rest, h := g.hdr m,
-                                                    snaps := (m, g.hdr m) :: (g.thr t).snaps })
+      Step grow bodies g (setThr g t (takeSnap g (g.thr t) rest m))
   | retSnap (g : G) (t : Tid) (rest : List MI) :
       (g.thr t).code = .retSnap :: rest → Step grow bodies g (setThr g t { g.thr t with code := [] })
   | clear (g : G) (t : Tid) (m : Str) (rest : List MI) :
       (g.thr t).code = .clear m :: rest →
       Step grow bodies g
-        (setThr { g with hdr := upd g.hdr m Hdr.nil, log := upd g.log m [] } t { g.thr t with code := rest })
+        (setThr { g with hdr := upd g.hdr m Hdr.nil, log := upd g.log m [], epoch := upd g.epoch m (g.epoch m + 1) } t
+          { g.thr t with code := rest })
   | invoke (g : G) (t : Tid) (m : Str) (rest : List MI) :
       (g.thr t).code = .invoke m :: rest → Step grow bodies g (setThr g t { g.thr t with code := [] })
 
